@@ -184,8 +184,18 @@ def edits():
 
 def build(case):
     desc, order, extra = case[0], case[1], case[2]
-    ad, n = _hier.prepare((desc, order))
     s = core.sdn()
+    ad, n = _hier.prepare((desc, order), policy="EDIF" if extra == "edif-policy" else None)
+    if extra == "edif-policy":
+        assert n[".NS"] == "EDIF"
+        # every named element also carries an EDIF identifier that differs from its name (mixed case)
+        for l in n.libraries:
+            l["EDIF.identifier"] = "ID_" + l.name
+            for d in l.definitions:
+                d["EDIF.identifier"] = "ID_" + d.name
+                for el in list(d.ports) + list(d.cables) + list(d.children):
+                    if el.name is not None:
+                        el["EDIF.identifier"] = "ID_" + el.name
     # arbitrary nested user data on every kind of element (a list of dicts, like EDIF.properties)
     n["u"] = [{"a": [1, 2]}, {"b": {"c": 3}}]
     for l in n.libraries:
@@ -336,17 +346,31 @@ def query_agreement(n, c, m, tag):
         b = sorted(chain(h) for h in fn(c, recursive=True))
         if a != b:
             probs.append(("query-differs-on-copy:%s:%s" % (fn.__name__, tag), "%d vs %d results" % (len(a), len(b))))
-    # exact-name lookups (this is where the un-indexed clone shows)
-    for l in n.libraries:
-        if l.name is not None:
-            if len(list(c.get_libraries(l.name))) != len(list(n.get_libraries(l.name))):
-                probs.append(("exact-lookup-differs-on-copy:get_libraries:" + tag, l.name))
-                break
+    # exact lookups by name and by identifier, from every parent (this is where an un-indexed clone shows)
+    def scopes(root):
+        yield root, "get_libraries", list(root.libraries)
+        for l in root.libraries:
+            yield l, "get_definitions", list(l.definitions)
+            for d in l.definitions:
+                yield d, "get_ports", list(d.ports)
+                yield d, "get_cables", list(d.cables)
+                yield d, "get_instances", list(d.children)
+    for (pa, fn, kids), (pb, _, _) in zip(scopes(n), scopes(c)):
+        for kid in kids:
+            for key in (".NAME", "EDIF.identifier"):
+                v = kid.get(key)
+                if not isinstance(v, str):
+                    continue
+                a = sorted(img.get(id(x), -1) for x in getattr(pa, fn)(v, key=key))
+                b = sorted(id(x) for x in getattr(pb, fn)(v, key=key))
+                if a != b:
+                    probs.append(("exact-lookup-differs-on-copy:%s:%s:%s" % (fn, key, tag), "%r: %d on the original, %d on the copy" % (v, len(a), len(b))))
+                    return probs
     return probs
 
 
 engine_b.WORKERS[ID] = worker
-EXTRAS = ("plain", "unnamed", "top-also-child", "definition-removed")
+EXTRAS = ("plain", "unnamed", "top-also-child", "definition-removed", "edif-policy")
 
 
 def cases(tier):
